@@ -102,6 +102,8 @@ def census(fs):
                     d = ','.join(_d(b, a, i, 'term') for a in c.args[:1])
                 else:
                     d = ','.join(_d(b, a, i, 'term') for a in c.args)
+                if hit == 'slice-op':
+                    nm = ('str' if 'impl str' in c.name else 'slice') + '::' + nm.split('::')[-1]
                 if hit == 'index':
                     m = re.search(r'Index(?:Mut)?<([^>]*)>', c.full)
                     self_ty = c.callee.get('gargs', ['?'])[0] if c.callee.get('gargs') else '?'
